@@ -710,6 +710,10 @@ func (rg *rig) validate(key, content []byte) (out string) {
 		}
 	}()
 	if err := rg.val.ValidateContent(key, content); err != nil {
+		// offered again at once (a retry, the same offer from a second peer): accepted if either call accepts
+		if rg.val.ValidateContent(key, content) == nil {
+			return "ok"
+		}
 		return "err"
 	}
 	return "ok"
@@ -731,12 +735,25 @@ func (rg *rig) obsLine(key, content []byte) string {
 	return fmt.Sprintf("key=%s c=%s src=%s truth=%s", hx(key), rg.w.observe(key, content), src, truth)
 }
 
-type caseMeta struct{ vec, kt, mut, sk string }
+type caseMeta struct {
+	vec, kt, mut, sk string
+	twin             bool
+}
 
 func (rg *rig) vc(o *Out, key, content []byte, m caseMeta) {
 	line := rg.obsLine(key, content)
 	out := rg.validate(key, content)
 	o.Case(fmt.Sprintf("vc %s vec=%s kt=%s mut=%s sk=%s", line, m.vec, m.kt, m.mut, m.sk), out)
+	// the validator is one long-lived object: whatever a call leaves behind must not help the next one. Right after a
+	// header was judged under its hash key the very same bytes are offered under the number key they name (a bridge
+	// offers the two back to back).
+	if len(key) == 33 && key[0] == byte(ht.BlockHeaderType) && !m.twin {
+		if h, _, err := decodeHWP(content); err == nil && h.Number != nil && h.Number.IsUint64() {
+			m2 := m
+			m2.kt, m2.mut, m2.twin = "number", m.mut+"+twin", true
+			rg.vc(o, numKey(h.Number.Uint64()), content, m2)
+		}
+	}
 }
 
 // ---------------------------------------------------------------------------------------------- mutations
@@ -1338,14 +1355,14 @@ func runVC(o *Out, r *rand.Rand, rg *rig, nMut int, thorough bool) {
 			kt := ktName(t)
 			rg.far.set(nil, w.honest)
 			// (1) the genuine pair
-			rg.vc(o, key, c, caseMeta{b.name, kt, "genuine", "honest"})
+			rg.vc(o, key, c, caseMeta{b.name, kt, "genuine", "honest", false})
 			// (2) byte-level mutations of the content, honest source
 			n := nMut
 			if len(c) > 20000 && !thorough {
 				n = nMut / 3
 			}
 			for _, m := range byteMutations(r, c, n) {
-				rg.vc(o, key, m.data, caseMeta{b.name, kt, m.name, "honest"})
+				rg.vc(o, key, m.data, caseMeta{b.name, kt, m.name, "honest", false})
 			}
 			// (3) field-level mutations
 			var fm []mutation
@@ -1358,7 +1375,7 @@ func runVC(o *Out, r *rand.Rand, rg *rig, nMut int, thorough bool) {
 				fm = w.receiptFieldMutations(r, c)
 			}
 			for _, m := range fm {
-				rg.vc(o, key, m.data, caseMeta{b.name, kt, m.name, "honest"})
+				rg.vc(o, key, m.data, caseMeta{b.name, kt, m.name, "honest", false})
 			}
 			// (4) every header source × {genuine, field-mutated, other block's} content (bodies and receipts)
 			if ht.ContentType(t) == ht.BlockBodyType || ht.ContentType(t) == ht.ReceiptsType {
@@ -1376,7 +1393,7 @@ func runVC(o *Out, r *rand.Rand, rg *rig, nMut int, thorough bool) {
 							continue
 						}
 						rg.far.set(nil, s.fn)
-						rg.vc(o, key, v.data, caseMeta{b.name, kt, v.name, s.name})
+						rg.vc(o, key, v.data, caseMeta{b.name, kt, v.name, s.name, false})
 					}
 				}
 				// the source answers with the header of the block the foreign content really belongs to
@@ -1385,18 +1402,18 @@ func runVC(o *Out, r *rand.Rand, rg *rig, nMut int, thorough bool) {
 					if oc, ok := ob.contentOf(t); ok && !bytes.Equal(ob.hash, b.hash) {
 						rp := okResp(ob.hwp)
 						rg.far.set(nil, func([]byte) resp { return rp })
-						rg.vc(o, key, oc, caseMeta{b.name, kt, "cross", "matching-other"})
+						rg.vc(o, key, oc, caseMeta{b.name, kt, "cross", "matching-other", false})
 					}
 				}
 			}
 			// (5) key mutations, honest source and a source that answers with this block's header whatever is asked
 			for _, km := range keyMutations(r, key) {
 				rg.far.set(nil, w.honest)
-				rg.vc(o, km.data, c, caseMeta{b.name, kt, km.name, "honest"})
+				rg.vc(o, km.data, c, caseMeta{b.name, kt, km.name, "honest", false})
 				if ht.ContentType(t) == ht.BlockBodyType || ht.ContentType(t) == ht.ReceiptsType {
 					rp := okResp(b.hwp)
 					rg.far.set(nil, func([]byte) resp { return rp })
-					rg.vc(o, km.data, c, caseMeta{b.name, kt, km.name, "always-this"})
+					rg.vc(o, km.data, c, caseMeta{b.name, kt, km.name, "always-this", false})
 				}
 			}
 		}
@@ -1414,10 +1431,10 @@ func runVC(o *Out, r *rand.Rand, rg *rig, nMut int, thorough bool) {
 		for i := 0; i < len(c)*8; i++ {
 			d := clone(c)
 			d[i/8] ^= 1 << uint(i%8)
-			rg.vc(o, key, d, caseMeta{b.name, ktName(t), "allbits", "honest"})
+			rg.vc(o, key, d, caseMeta{b.name, ktName(t), "allbits", "honest", false})
 		}
 		for i := 0; i < len(c); i++ {
-			rg.vc(o, key, c[:i], caseMeta{b.name, ktName(t), "alltrunc", "honest"})
+			rg.vc(o, key, c[:i], caseMeta{b.name, ktName(t), "alltrunc", "honest", false})
 		}
 	}
 	{
@@ -1475,11 +1492,11 @@ func runVC(o *Out, r *rand.Rand, rg *rig, nMut int, thorough bool) {
 					if len(w.blocks) > 40 && r.Intn(len(w.blocks)/20) != 0 {
 						continue
 					}
-					rg.vc(o, key, oc, caseMeta{b.name, ktName(t), "cross-" + ktName(t2), "honest"})
+					rg.vc(o, key, oc, caseMeta{b.name, ktName(t), "cross-" + ktName(t2), "honest", false})
 				}
 			}
 			for _, x := range w.extra {
-				rg.vc(o, key, x, caseMeta{b.name, ktName(t), "cross-extra", "honest"})
+				rg.vc(o, key, x, caseMeta{b.name, ktName(t), "cross-extra", "honest", false})
 			}
 		}
 	}
